@@ -45,7 +45,7 @@ fn payload_plan(rng: &mut Rng, n: usize, for_blocking_bridge: bool) -> Plan {
         1 => Fallback::Chunk(1),
         _ => Fallback::Chunk(rng.range(1, 70_000)),
     };
-    Plan { steps, fallback, fail_at: None, fail_once: false, thread_wake: for_blocking_bridge }
+    Plan { steps, fallback, fail_at: None, steps_start: 0, fail_once: false, thread_wake: for_blocking_bridge }
 }
 
 pub(crate) fn c08_case(rep: &mut Report, seed: u64, idx: u64, tier: &str) {
@@ -895,6 +895,27 @@ pub fn run_c19(args: &Args, tier: &str, seed: u64) -> Report {
         Some(Model { version: 0x0101, code: 0, id: 1, groups: vec![g(1, vec![("a", MVal::Integer(9))]), g(2, vec![("a", MVal::Integer(8))]), g(2, vec![("b", MVal::Integer(7))]), g(4, vec![]), g(2, vec![])], data: vec![] }),
         Some(Model { version: 0x0101, code: 0, id: 1, groups: vec![g(4, vec![]), g(4, vec![("a", MVal::Boolean(true)), ("b", MVal::Boolean(false))]), g(1, vec![("b", MVal::NoValue)]), g(1, vec![("a", MVal::NoValue)])], data: vec![] }),
     ];
+    let starts = {
+        let mut st = starts;
+        st.push(Some(Model {
+            version: 0x0101,
+            code: 0,
+            id: 1,
+            groups: vec![g(1, vec![("attributes-charset", MVal::Text { tag: 0x47, s: "utf-8".into() }), ("attributes-natural-language", MVal::Text { tag: 0x48, s: "en".into() }), ("printer-uri", MVal::Text { tag: 0x45, s: "ipp://h/p".into() })]), g(2, vec![("a", MVal::Integer(1))])],
+            data: vec![],
+        }));
+        st
+    };
+    // second alphabet: the names the encoder and the constructors treat specially
+    let mut special: Vec<(u8, String, MVal)> = vec![];
+    for tag in [1u8, 2] {
+        for name in ["attributes-charset", "attributes-natural-language", "printer-uri", "job-id"] {
+            for v in [MVal::Text { tag: 0x47, s: "us-ascii".into() }, MVal::Integer(7)] {
+                special.push((tag, name.to_string(), v));
+            }
+        }
+    }
+    let special = Arc::new(special);
     let total: u64 = (0..=k as u32).map(|l| 16u64.pow(l)).sum();
     let alphabet = Arc::new(alphabet);
     let starts = Arc::new(starts);
@@ -931,6 +952,29 @@ pub fn run_c19(args: &Args, tier: &str, seed: u64) -> Report {
             }
             t += nthreads as u64;
         }
+        // all sequences of length <= 3 over the special-name alphabet, from every start
+        let total2: u64 = (0..=3u32).map(|l| 16u64.pow(l)).sum();
+        let mut t = shard as u64;
+        while t < total2 {
+            let mut i = t;
+            let mut len = 0u32;
+            loop {
+                let c = 16u64.pow(len);
+                if i < c {
+                    break;
+                }
+                i -= c;
+                len += 1;
+            }
+            let seq = gen::seq_of(i, 16, len as usize);
+            let ops: Vec<(u8, String, MVal)> = seq.iter().map(|&x| special[x].clone()).collect();
+            for (si, st) in starts.iter().enumerate() {
+                let label = format!("start #{si}, special-name adds {:?}", ops.iter().map(|o| format!("{}:{}", o.0, o.1)).collect::<Vec<_>>());
+                c19_run_seq(&mut rep, st, &ops, &label, &["c19".to_string(), "--seed".into(), seed.to_string()]);
+                rep.count("enumerated_special_name_sequences", 1);
+            }
+            t += nthreads as u64;
+        }
         // random long sequences with G1 values, from parser-produced G1 messages
         let mut i = shard as u64;
         let cfg = G1Cfg { max_depth: 3, ..G1Cfg::default() };
@@ -944,7 +988,7 @@ pub fn run_c19(args: &Args, tier: &str, seed: u64) -> Report {
                 None
             };
             let n = r.range(0, 200);
-            let names = ["a", "b", "c", "printer-uri", "job-id", "é", ""];
+            let names = ["a", "b", "c", "printer-uri", "job-id", "é", "", "attributes-charset", "attributes-natural-language", "job-uri"];
             let ops: Vec<(u8, String, MVal)> = (0..n).map(|_| (*r.pick(&[1u8, 2, 3, 4, 5]), r.pick(&names).to_string(), gen::gen_value(&mut r, &cfg, 2, false).normalize())).collect();
             let label = format!("random case {i}: {} adds from {}", ops.len(), if start.is_some() { "a parsed G1 message" } else { "empty" });
             let replay = vec!["c19".to_string(), "--seed".into(), seed.to_string()];
@@ -963,7 +1007,12 @@ pub fn run_c19(args: &Args, tier: &str, seed: u64) -> Report {
             for v in gen::kind_reps() {
                 c19_traverse(&mut rep, &v, &["c19".to_string()]);
                 rep.seen("traversed_kinds", ippref::KIND_NAMES[v.kind()]);
+                // a one-element set of each kind visits that element once (also when the element is a collection)
+                c19_traverse(&mut rep, &MVal::Set(vec![v.clone()]), &["c19".to_string()]);
+                c19_traverse(&mut rep, &MVal::Set(vec![v.clone(), v.clone()]), &["c19".to_string()]);
             }
+            c19_traverse(&mut rep, &MVal::Set(vec![MVal::Coll((0..3).map(|i| (format!("m{i}"), MVal::Integer(i))).collect())]), &["c19".to_string()]);
+            c19_traverse(&mut rep, &MVal::Set(vec![MVal::Coll(BTreeMap::new())]), &["c19".to_string()]);
             // wide set, wide collection, empty set/collection
             c19_traverse(&mut rep, &MVal::Set((0..1000).map(MVal::Integer).collect()), &["c19".to_string()]);
             c19_traverse(&mut rep, &MVal::Coll((0..300).map(|i| (format!("m{:03}", (i * 7) % 300), MVal::Integer(i))).collect()), &["c19".to_string()]);
@@ -974,7 +1023,7 @@ pub fn run_c19(args: &Args, tier: &str, seed: u64) -> Report {
         rep
     });
     let mut rep = merged("C19", tier, seed, parts);
-    rep.rule = format!("Model-based monitor: an ordered model Vec<(kind, Vec<(name, value)>)> is stepped in lock-step with IppAttributes::add; after every operation groups(), groups_of(kind) for all five kinds and finally into_groups() are compared with the model. ALL add-sequences of length <= {k} over the 16-operation alphabet (4 kinds x 2 names x 2 values), from the empty container and from two parser-produced containers with repeated/empty groups; plus random sequences of up to 200 adds (5 kinds, 7 names, G1 values) from empty or from parsed G1 messages. Traversal: &IppValue iterator vs model (set in order, collection in member-name order, scalar once, then None on three further calls) for representatives of every kind, wide/empty sets and collections and random G1 values. Non-trivial = sequence of >= 2 adds.");
+    rep.rule = format!("Model-based monitor: an ordered model Vec<(kind, Vec<(name, value)>)> is stepped in lock-step with IppAttributes::add; after every operation groups(), groups_of(kind) for all five kinds and finally into_groups() are compared with the model. ALL add-sequences of length <= {k} over the 16-operation alphabet (4 kinds x 2 names x 2 values), from the empty container and from two parser-produced containers with repeated/empty groups; plus all sequences of length <= 3 over a second alphabet of the specially treated names (charset, natural-language, printer-uri, job-id) from every start incl. one that already holds them; plus random sequences of up to 200 adds (5 kinds, 10 names, G1 values) from empty or from parsed G1 messages. Traversal: &IppValue iterator vs model (set in order, collection in member-name order, scalar once, then None on three further calls) for representatives of every kind, one- and two-element sets of every kind (incl. a one-element set of a collection), wide/empty sets and collections and random G1 values. Non-trivial = sequence of >= 2 adds.");
     rep.exhaustive = Some(false);
     let tk: BTreeSet<String> = rep.sets.get("traversed_kinds").cloned().unwrap_or_default();
     rep.require(tk.len() >= 22, &format!("all kinds traversed (saw {})", tk.len()));
